@@ -504,4 +504,23 @@ theorem read_recordCRLF (d : Dialect) (hd : WFD d) (r : Rec) (h : ∀ c ∈ r, '
   rw [e]
   exact h1
 
+theorem universal_renderCRLF (d : Dialect) (hd : WFD d) (recs : List Rec) (h : ∀ r ∈ recs, ∀ c ∈ r, '\r' ∉ c) :
+    universal (renderCRLF d recs) = render d recs := by
+  induction recs with
+  | nil => rfl
+  | cons r rest ih =>
+    have e1 : renderCRLF d (r :: rest) = encRecordCRLF d r ++ renderCRLF d rest := by simp [renderCRLF]
+    have e2 : render d (r :: rest) = encRecord d r ++ render d rest := by simp [render]
+    rw [e1, e2, universal_recordCRLF d hd r (h r (List.mem_cons_self ..)), ih (fun x hx => h x (List.mem_cons_of_mem _ hx))]
+
+/-- a file written with the default line terminator in text mode is read back record for record -/
+theorem read_renderCRLF (d : Dialect) (hd : WFD d) (recs : List Rec)
+    (h : ∀ r ∈ recs, ∀ c ∈ r, '\r' ∉ c ∧ c.length ≤ d.limit) :
+    Model.Csv.read d (renderCRLF d recs) = some recs := by
+  have h1 := read_render d hd recs h
+  unfold Model.Csv.read at h1 ⊢
+  rw [universal_id _ (render_no_cr d hd recs (fun r hr c hc => (h r hr c hc).1))] at h1
+  rw [universal_renderCRLF d hd recs (fun r hr c hc => (h r hr c hc).1)]
+  exact h1
+
 end Proofs.Csv
